@@ -154,6 +154,17 @@ CORPUS = {
 (assert (= w (concat (__w 1) ((_ extract 5 0) w))))
 (assert (= (s_prefix 1) (s_suffix 2)))
 ''',
+    # ... by a recursive definition, by a constructor and by a selector
+    'names-rec': '''(define-fun-rec _v ((x (_ BitVec 4))) (_ BitVec 4) (_v x))
+(declare-datatype T ((__w (s_prefix Int)) (nil)))
+(declare-const v (_ BitVec 8))
+(declare-const w (_ BitVec 8))
+(declare-const s String)
+(assert (str.contains s "q"))
+(assert (= ((_ extract 3 0) v) (_v #x1)))
+(assert (= w (concat #b00 ((_ extract 5 0) w))))
+(assert (= (s_prefix (__w 1)) 1))
+''',
     'names': '''(declare-const x1__fresh Int)
 (declare-const __v (_ BitVec 2))
 (declare-const _v (_ BitVec 4))
@@ -185,14 +196,47 @@ def all_nodes(exprs):
 
 
 def declared_names(exprs):
+    """Every symbol a command of the input introduces (the commands of
+    SMT-LIB 2.6 that do, not the ones ddSMT happens to look at)."""
     names = set()
+
+    def datatype(decl):
+        # ((ctor (sel sort) ...) ...), possibly (par (..) (...))
+        if decl.is_leaf():
+            return
+        if len(decl) == 3 and decl[0].is_leaf() and decl[0].data == 'par':
+            decl = decl[2]
+        for ctor in decl:
+            if ctor.is_leaf():
+                names.add(ctor.data)
+                continue
+            if len(ctor) and ctor[0].is_leaf():
+                names.add(ctor[0].data)
+            for sel in ctor[1:]:
+                if not sel.is_leaf() and len(sel) and sel[0].is_leaf():
+                    names.add(sel[0].data)
+
     for cmd in exprs:
         if cmd.is_leaf() or len(cmd) < 2 or not cmd[0].is_leaf():
             continue
-        if cmd[0].data in ('declare-const', 'declare-fun', 'define-fun',
-                           'declare-sort', 'define-sort',
-                           'declare-datatype') and cmd[1].is_leaf():
+        c = cmd[0].data
+        if c in ('declare-const', 'declare-fun', 'define-fun',
+                 'define-fun-rec', 'declare-sort', 'define-sort',
+                 'declare-datatype') and cmd[1].is_leaf():
             names.add(cmd[1].data)
+        if c == 'define-funs-rec' and not cmd[1].is_leaf():
+            for sig in cmd[1]:
+                if not sig.is_leaf() and len(sig) and sig[0].is_leaf():
+                    names.add(sig[0].data)
+        if c == 'declare-datatype' and len(cmd) > 2:
+            datatype(cmd[2])
+        if c == 'declare-datatypes' and len(cmd) > 2 and \
+                not cmd[1].is_leaf() and not cmd[2].is_leaf():
+            for srt in cmd[1]:
+                if not srt.is_leaf() and len(srt) and srt[0].is_leaf():
+                    names.add(srt[0].data)
+            for decl in cmd[2]:
+                datatype(decl)
     return names
 
 
